@@ -102,7 +102,19 @@ static void set_position(struct context_data *ctx, int pos, int dir)
 					}
 				}
 			}
+			/* Moving relative to the current position never leaves the
+			 * sequence. Orders without a pattern are passed over the way
+			 * the player does; the call stays put instead of entering the
+			 * end marker or an order that belongs to another sequence. */
+			while (dir > 0 && pos < mod->len && mod->xxo[pos] >= mod->pat &&
+			       !(has_marker && mod->xxo[pos] == 0xff)) {
+				pos++;
+			}
 			pat = pos < mod->len ? mod->xxo[pos] : 0xff;
+			if (dir != 0 && (pos >= mod->len || (has_marker && pat == 0xff) ||
+			    libxmp_get_sequence(ctx, pos) != seq)) {
+				return;
+			}
 
 			/* A position that next_order() will skip still selects the
 			 * end point of its own sequence, not the previous one's. */
